@@ -31,6 +31,43 @@ def main():
         jobs += [Job(P + 'VerifC06Responder', (2, 0), cfg=cfg, max_paths=400000), Job(P + 'VerifC06Responder', (2, 1), cfg=cfg, max_paths=400000),
                  Job(P + 'VerifC06Requester', (2,), cfg=cfg, max_paths=400000)]
     res = chk.run_jobs(jobs)
+    chk.cleanup()
+    # after the handshake: contactRequestsManager.handleIncomingRequest with an arbitrary announced contact (root package)
+    import c03, c19
+    from wesym.values import Native, Iface
+    from wesym.contracts.base import mk_error
+
+    def install_incoming(I):
+        c19.install(I)
+        st = {}
+        I.intrinsics['verif_handshakePeer'] = lambda I, a, ins: st.__setitem__('pk', a[0])
+        I.contracts[MOD + '/internal/handshake.ResponseUsingReaderWriter'] = lambda I, a, ins: (st.get('pk'), None)
+        PIO = MOD + '/pkg/protoio.'
+        I.contracts[PIO + 'NewDelimitedReader'] = lambda I, a, ins: Iface(-80, Native('peerreader', as_iface=True))
+        I.contracts[PIO + 'NewDelimitedWriter'] = lambda I, a, ins: Iface(-81, Native('peerwriter', as_iface=True))
+
+        def read_msg(I, args, ins):
+            # the peer controls the message: every field free (nil / free bytes of any length)
+            if not I.fork_bool(I.fresh_bool('peer-sends-a-message'), 'peer-read'):
+                return mk_error(I, 'stream: read error')
+            I.intrinsics['verif_fillAny'](I, [args[1]], ins)
+            return None
+        I.methods[('peerreader', 'ReadMsg')] = read_msg
+        I.methods[('peerwriter', 'WriteMsg')] = lambda I, a, ins: None
+
+        def equal_fold(I, args, ins):
+            # bytes.EqualFold: equal inputs fold-equal; unequal inputs may or may not (free)
+            import z3
+            a, b = I.bytes_term(args[0]), I.bytes_term(args[1])
+            r = I.fresh_bool('equalfold')
+            I.add(z3.Implies(a == b, r))
+            return r
+        I.contracts['bytes.EqualFold'] = equal_fold
+
+    chk2 = c03.root_check('C06', ['C06/zz_verif_c06_incoming.go'], extra_installers=[install_incoming])
+    chk2.load([MOD + '.VerifC06Incoming'])
+    res += chk2.run_jobs([Job(MOD + '.VerifC06Incoming', (), cfg={'timeout_ms': 60000, 'unwind': 12}, max_paths=100000)])
+    chk = chk2
     finish(chk, res, t,
            explanation='Symbolic execution of internal/handshake (both roles, all ten step functions, both box-key derivations) against a symbolic peer: every '
                        'incoming frame is a free byte string, account keys of the honest parties are EUF-CMA, X25519 is a free symmetric function that maps '
@@ -38,7 +75,7 @@ def main():
                        'scalars are INT-CTXT, everything else is adversary-known. Recorded honest sessions of the impersonated account provide the signatures '
                        'an attacker can replay; the attacked session must then be one the account really took part in.',
            bounds={'recorded_honest_sessions': '1 (quick) / 2 (thorough)', 'attacked_sessions': 1,
-                   'outside': 'the primitives; truncated/oversized frames at the byte level (framing is C18); handleIncomingRequest after the handshake'},
+                   'outside': 'the primitives; truncated/oversized frames at the byte level (framing is C18)', 'after_the_handshake': 'contactRequestsManager.handleIncomingRequest with the handshake result an arbitrary authenticated key (contract) and the announced ShareableContact free'},
            assumptions=['X25519 axioms of DESIGN 2.3', 'EUF-CMA for honest account keys', 'INT-CTXT for box keys derived from an honest-honest agreement', 'typed protobuf parse'],
            trusted=['go/ssa lowering', 'wesym interpreter + contracts', 'z3 5.1.0 (+cross-check)'])
 
